@@ -425,12 +425,14 @@ def write_replay(pid, payload):
     p = os.path.join(d, '%s-%s.json' % (pid, h))
     with open(p, 'w') as fh:
         json.dump(payload, fh, indent=1, default=str, ensure_ascii=False)
-    return p
+    return os.path.relpath(p, VERIF)
 
 
 def do_replay(path):
     """re-run a stored failing input against the real code"""
     import oracle as O
+    if not os.path.isabs(path) and not os.path.exists(path):
+        path = os.path.join(VERIF, path)
     r = json.load(open(path))
     print('replay of %s: %s' % (r.get('property'), r.get('what')))
     if r.get('kind') == 'no-failing-input':
